@@ -18,7 +18,7 @@ open Gama.Gen.GkfAttrs Gama.Gen.GkfDoc
 
 variable {K : Type}
 
-structure Codec.PrinterOn (C : Codec K) (D : K → Prop) (q qd : K → K) : Prop where
+structure Codec.PrinterOn (C : Codec K) (D : K → Prop) (q qc qd : K → K) : Prop where
   rd_fmt : ∀ x, C.rd (C.fmt x) = some (q x)         -- defined for every x
   fmt_q : ∀ x, C.fmt (q x) = C.fmt x                -- printing is a projection
   isZero_iff : ∀ x, C.isZero x = true ↔ x = C.zero
@@ -31,6 +31,11 @@ structure Codec.PrinterOn (C : Codec K) (D : K → Prop) (q qd : K → K) : Prop
   latOut_latIn : ∀ x, C.latOut (C.latIn x) = x
   rdDeg_fmt : ∀ x, C.rdDeg (C.fmt x) = none
   fmt_ne : ∀ x, C.fmt x ≠ ""
+  -- the elements of `<cov-mat>` have a third printer (`updated_xml_covmat`: `%.16e`), with its own quantisation `qc`;
+  -- they are read by the common reader
+  rd_fmtCov : ∀ x, C.rd (C.fmtCov x) = some (qc x)
+  fmtCov_qc : ∀ x, C.fmtCov (qc x) = C.fmtCov x
+  qc_neg : ∀ x, qc (C.neg x) = C.neg (qc x)
   -- the sexagesimal text (gon2deg(m, 0, 4) / deg2gon) is a second printer, with its own quantisation `qd`; its laws
   -- are required on the domain `D` only
   rdDeg_fmtDeg : ∀ x, D x → C.rdDeg (C.fmtDeg x) = some (qd x)
@@ -39,37 +44,51 @@ structure Codec.PrinterOn (C : Codec K) (D : K → Prop) (q qd : K → K) : Prop
   fromSec_toSec : ∀ x, C.fromSec (C.toSec x) = x
   toSec_fromSec : ∀ x, C.toSec (C.fromSec x) = x
 
-/-- the law without a domain: every field for every `x` (C12's records; the toy printers) -/
-abbrev Codec.Printer (C : Codec K) (q qd : K → K) : Prop := C.PrinterOn (fun _ => True) q qd
+/-- the law without a domain and with one decimal printer (`fmtCov` quantises as `fmt`): every field for every `x`
+    (C12's records; the toy printers) -/
+abbrev Codec.Printer (C : Codec K) (q qd : K → K) : Prop := C.PrinterOn (fun _ => True) q q qd
 
-theorem Codec.PrinterOn.mono {C : Codec K} {D D' : K → Prop} {q qd : K → K} (P : C.PrinterOn D q qd)
-    (h : ∀ x, D' x → D x) : C.PrinterOn D' q qd :=
+theorem Codec.PrinterOn.mono {C : Codec K} {D D' : K → Prop} {q qc qd : K → K} (P : C.PrinterOn D q qc qd)
+    (h : ∀ x, D' x → D x) : C.PrinterOn D' q qc qd :=
   { P with rdDeg_fmtDeg := fun x hx => P.rdDeg_fmtDeg x (h x hx), fmtDeg_qd := fun x hx => P.fmtDeg_qd x (h x hx) }
 
 /-- a printer without a domain is a printer on every domain -/
-theorem Codec.Printer.on {C : Codec K} {q qd : K → K} (P : C.Printer q qd) (D : K → Prop) : C.PrinterOn D q qd :=
+theorem Codec.Printer.on {C : Codec K} {q qd : K → K} (P : C.Printer q qd) (D : K → Prop) : C.PrinterOn D q q qd :=
   Codec.PrinterOn.mono (D := fun _ => True) P (fun _ _ => trivial)
 
-theorem Codec.PrinterOn.q_idem {C : Codec K} {D : K → Prop} {q qd : K → K} (P : C.PrinterOn D q qd) (x : K) : q (q x) = q x := by
+theorem Codec.PrinterOn.q_idem {C : Codec K} {D : K → Prop} {q qc qd : K → K} (P : C.PrinterOn D q qc qd) (x : K) : q (q x) = q x := by
   have h1 := P.rd_fmt (q x)
   rw [P.fmt_q, P.rd_fmt] at h1
   exact (Option.some.inj h1).symm
 
+theorem Codec.PrinterOn.qc_idem {C : Codec K} {D : K → Prop} {q qc qd : K → K} (P : C.PrinterOn D q qc qd) (x : K) :
+    qc (qc x) = qc x := by
+  have h1 := P.rd_fmtCov (qc x)
+  rw [P.fmtCov_qc, P.rd_fmtCov] at h1
+  exact (Option.some.inj h1).symm
+
+/-- the covariance elements the `<cov-mat>` text gives back exactly are those the printer does not round -/
+theorem Codec.PrinterOn.covRep_iff {C : Codec K} {D : K → Prop} {q qc qd : K → K} (P : C.PrinterOn D q qc qd) (x : K) :
+    C.CovRep x ↔ qc x = x := by
+  unfold Codec.CovRep
+  rw [P.rd_fmtCov]
+  exact ⟨fun h => Option.some.inj h, fun h => by rw [h]⟩
+
 /-- the sexagesimal quantisation is idempotent where both `x` and `qd x` are in the domain -/
-theorem Codec.PrinterOn.qd_idem {C : Codec K} {D : K → Prop} {q qd : K → K} (P : C.PrinterOn D q qd) (x : K)
+theorem Codec.PrinterOn.qd_idem {C : Codec K} {D : K → Prop} {q qc qd : K → K} (P : C.PrinterOn D q qc qd) (x : K)
     (hx : D x) (hq : D (qd x)) : qd (qd x) = qd x := by
   have h1 := P.rdDeg_fmtDeg (qd x) hq
   rw [P.fmtDeg_qd x hx, P.rdDeg_fmtDeg x hx] at h1
   exact (Option.some.inj h1).symm
 
 /-- the representable angles of the domain satisfy the exact law -/
-theorem Codec.PrinterOn.degLawfulOn {C : Codec K} {D : K → Prop} {q qd : K → K} (P : C.PrinterOn D q qd) :
+theorem Codec.PrinterOn.degLawfulOn {C : Codec K} {D : K → Prop} {q qc qd : K → K} (P : C.PrinterOn D q qc qd) :
     C.DegLawfulOn (fun x => D x ∧ qd x = x) :=
   { rdDeg_fmtDeg := fun x hx => by rw [P.rdDeg_fmtDeg x hx.1, hx.2]
     fromSec_toSec := P.fromSec_toSec }
 
 /-- the representable numbers of a printer satisfy the exact law -/
-theorem Codec.PrinterOn.lawfulOn {C : Codec K} {D : K → Prop} {q qd : K → K} (P : C.PrinterOn D q qd) :
+theorem Codec.PrinterOn.lawfulOn {C : Codec K} {D : K → Prop} {q qc qd : K → K} (P : C.PrinterOn D q qc qd) :
     C.LawfulOn (fun x => q x = x) :=
   { num := ⟨fun x hx => by rw [P.rd_fmt, hx], P.isZero_iff⟩
     neg_neg := P.neg_neg
@@ -77,7 +96,10 @@ theorem Codec.PrinterOn.lawfulOn {C : Codec K} {D : K → Prop} {q qd : K → K}
     rdI_fmtI := P.rdI_fmtI
     latIn_latOut := P.latIn_latOut
     rdDeg_fmt := P.rdDeg_fmt
-    fmt_ne := P.fmt_ne }
+    fmt_ne := P.fmt_ne
+    covRep_neg := fun x hx => by
+      rw [P.covRep_iff] at hx ⊢
+      rw [P.qc_neg, hx] }
 
 /-! ## the domain of the angular values -/
 
@@ -143,76 +165,77 @@ def quantObsU (C : Codec K) (q qd : K → K) (gons : Bool) (o : Obs K) : Obs K :
 def quantCovU (C : Codec K) (q : K → K) (gons : Bool) (ang : Nat → Bool) (c : Cov K) : Cov K :=
   if gons then quantCov q c else scaleCov C.fromSec ang (quantCov q (scaleCov C.toSec ang c))
 
-def quantCluster (C : Codec K) (q qd : K → K) (gons : Bool) (s0 : K) : Cluster K → Cluster K
+/-- every number of a cluster as read back: the covariance elements through their own printer (`qc`) -/
+def quantCluster (C : Codec K) (q qc qd : K → K) (gons : Bool) (s0 : K) : Cluster K → Cluster K
   | .obs sp cov => .obs ⟨sp.station, sp.obs.map (quantObsU C q qd gons)⟩
-                     (cov.map (quantCovU C q gons (flagOf (sp.obs.map (fun o => o.kind.angular)))))
-  | .hdiffs dhs cov => .hdiffs (dhs.map (quantDh C q s0)) (cov.map (quantCov q))
-  | .coords ext pts cov => .coords ext (pts.map (quantCPoint q)) (quantCov q cov)
-  | .vectors vecs cov => .vectors (vecs.map (quantVec q)) (quantCov q cov)
+                     (cov.map (quantCovU C qc gons (flagOf (sp.obs.map (fun o => o.kind.angular)))))
+  | .hdiffs dhs cov => .hdiffs (dhs.map (quantDh C q s0)) (cov.map (quantCov qc))
+  | .coords ext pts cov => .coords ext (pts.map (quantCPoint q)) (quantCov qc cov)
+  | .vectors vecs cov => .vectors (vecs.map (quantVec q)) (quantCov qc cov)
 
-def quantNet (C : Codec K) (q qd : K → K) (n : Net K) : Net K :=
+def quantNet (C : Codec K) (q qc qd : K → K) (n : Net K) : Net K :=
   { n with head := { n.head with epoch := n.head.epoch.map q }
            par := quantParams C q n.par
            points := n.points.map (quantPoint q)
-           clusters := n.clusters.map (quantCluster C q qd n.par.gons n.par.sigmaApr) }
+           clusters := n.clusters.map (quantCluster C q qc qd n.par.gons n.par.sigmaApr) }
 
-variable {C : Codec K} {D : K → Prop} {q qd : K → K}
+variable {C : Codec K} {D : K → Prop} {q qc qd : K → K}
 
-theorem fmt_sgn_q (P : C.PrinterOn D q qd) (b : Bool) (x : K) : C.fmt (sgn C b (q x)) = C.fmt (sgn C b x) := by
+theorem fmt_sgn_q (P : C.PrinterOn D q qc qd) (b : Bool) (x : K) : C.fmt (sgn C b (q x)) = C.fmt (sgn C b x) := by
   cases b
   · simp [sgn, P.fmt_q]
   · simp only [sgn, if_true]
     rw [← P.q_neg, P.fmt_q]
 
-theorem flipWith_map (P : C.PrinterOn D q qd) (bs : List Bool) (xs : List K) :
-    flipWith C.neg bs (xs.map q) = (flipWith C.neg bs xs).map q := by
+theorem flipWith_map (P : C.PrinterOn D q qc qd) (bs : List Bool) (xs : List K) :
+    flipWith C.neg bs (xs.map qc) = (flipWith C.neg bs xs).map qc := by
   induction bs generalizing xs with
   | nil => cases xs <;> rfl
   | cons b bs ih =>
     cases xs with
     | nil => rfl
-    | cons x xs => cases b <;> simp [flipWith, ih, P.q_neg]
+    | cons x xs => cases b <;> simp [flipWith, ih, P.qc_neg]
 
-theorem exportCov_quant (P : C.PrinterOn D q qd) (c : Cov K) : exportCov C.toNumFmt (quantCov q c) = exportCov C.toNumFmt c := by
-  simp [exportCov, quantCov, List.map_map, Function.comp_def, P.fmt_q]
+theorem exportCov_quant (P : C.PrinterOn D q qc qd) (c : Cov K) : exportCov C.covFmt (quantCov qc c) = exportCov C.covFmt c := by
+  simp [exportCov, quantCov, List.map_map, Function.comp_def, Codec.covFmt, P.fmtCov_qc]
 
-theorem exportCovCall_quant (P : C.PrinterOn D q qd) (call : Bool × Bool) (ys degrees : Bool) (mir : Nat → Bool) (c : Cov K) :
-    exportCovCall C call ys degrees mir (fun _ => false) (quantCov q c) = exportCovCall C call ys degrees mir (fun _ => false) c := by
-  have hm : mirrorCov C.neg mir (quantCov q c) = quantCov q (mirrorCov C.neg mir c) := by
+theorem exportCovCall_quant (P : C.PrinterOn D q qc qd) (call : Bool × Bool) (ys degrees : Bool) (mir : Nat → Bool) (c : Cov K) :
+    exportCovCall C call ys degrees mir (fun _ => false) (quantCov qc c) = exportCovCall C call ys degrees mir (fun _ => false) c := by
+  have hm : mirrorCov C.neg mir (quantCov qc c) = quantCov qc (mirrorCov C.neg mir c) := by
     simp [mirrorCov, quantCov, flipWith_map P]
   unfold exportCovCall
   simp only [scaleCov_false C.toSec (fun _ => false) (fun _ => rfl), ite_self]
   by_cases h1 : (covSkipsDiagonal && !call.1 && c.band == 0) = true
-  · have : (covSkipsDiagonal && !call.1 && (quantCov q c).band == 0) = true := h1
+  · have : (covSkipsDiagonal && !call.1 && (quantCov qc c).band == 0) = true := h1
     simp [h1, this]
-  · have : ¬ (covSkipsDiagonal && !call.1 && (quantCov q c).band == 0) = true := h1
+  · have : ¬ (covSkipsDiagonal && !call.1 && (quantCov qc c).band == 0) = true := h1
     simp only [h1, this, if_false, Bool.and_false, Bool.false_and, Bool.false_eq_true]
     by_cases h2 : (call.2 && ys && covMirrors) = true
     · simp only [h2, if_true, hm, exportCov_quant P]
     · simp [h2, exportCov_quant P]
 
-theorem quantCovU_band (gons : Bool) (ang : Nat → Bool) (c : Cov K) : (quantCovU C q gons ang c).band = c.band := by
+theorem quantCovU_band (gons : Bool) (ang : Nat → Bool) (c : Cov K) : (quantCovU C qc gons ang c).band = c.band := by
   cases gons <;> rfl
 
-theorem covOut_quantCovU (P : C.PrinterOn D q qd) (gons : Bool) (ang : Nat → Bool) (c : Cov K) :
-    covOut C gons ang (quantCovU C q gons ang c) = quantCov q (covOut C gons ang c) := by
+theorem covOut_quantCovU (P : C.PrinterOn D q qc qd) (gons : Bool) (ang : Nat → Bool) (c : Cov K) :
+    covOut C gons ang (quantCovU C qc gons ang c) = quantCov qc (covOut C gons ang c) := by
   cases gons
   · simp only [covOut, quantCovU, Bool.false_eq_true, if_false]
     exact scaleCov_inv _ _ P.toSec_fromSec _ _
   · rfl
 
 /-- the `<cov-mat>` of an `<obs>` cluster, gons or degrees -/
-theorem exportCovCall_obs_quant (P : C.PrinterOn D q qd) (ys gons : Bool) (ang : Nat → Bool) (c : Cov K) :
-    exportCovCall C covCall_StandPoint ys (!gons) (fun _ => false) ang (quantCovU C q gons ang c) =
+theorem exportCovCall_obs_quant (P : C.PrinterOn D q qc qd) (ys gons : Bool) (ang : Nat → Bool) (c : Cov K) :
+    exportCovCall C covCall_StandPoint ys (!gons) (fun _ => false) ang (quantCovU C qc gons ang c) =
       exportCovCall C covCall_StandPoint ys (!gons) (fun _ => false) ang c := by
   by_cases hb : c.band = 0
   · have h1 : (c.band == 0) = true := by simpa using hb
-    have h2 : ((quantCovU C q gons ang c).band == 0) = true := by rw [quantCovU_band]; exact h1
+    have h2 : ((quantCovU C qc gons ang c).band == 0) = true := by rw [quantCovU_band]; exact h1
     simp [exportCovCall, covCall_StandPoint, covSkipsDiagonal, h1, h2]
-  · have hb' : (quantCovU C q gons ang c).band ≠ 0 := by rw [quantCovU_band]; exact hb
+  · have hb' : (quantCovU C qc gons ang c).band ≠ 0 := by rw [quantCovU_band]; exact hb
     rw [exportCovCall_obs C ys gons ang _ hb', exportCovCall_obs C ys gons ang c hb, covOut_quantCovU P, exportCov_quant P]
 
-theorem exportObsU_quant (P : C.PrinterOn D q qd) (gons : Bool) (cf : String) (o : Obs K)
+theorem exportObsU_quant (P : C.PrinterOn D q qc qd) (gons : Bool) (cf : String) (o : Obs K)
     (hD : (gons || !o.kind.angular) = false → D o.val) :
     exportObsU C gons cf (quantObsU C q qd gons o) = exportObsU C gons cf o := by
   by_cases hg : (gons || !o.kind.angular) = true
@@ -229,21 +252,21 @@ theorem exportObsU_quant (P : C.PrinterOn D q qd) (gons : Bool) (cf : String) (o
     simp only [exportObsU, hg', Bool.false_eq_true, if_false, exportObsV, dhAttr, P.fmt_q, P.isZero_q, P.fmtDeg_qd _ (hD hg'),
       P.toSec_fromSec, visStdevScaled, if_true]
 
-theorem exportDh_quant (P : C.PrinterOn D q qd) (s0 : K) (h : HDiff K) :
+theorem exportDh_quant (P : C.PrinterOn D q qc qd) (s0 : K) (h : HDiff K) :
     exportDh C.toNumFmt true C.pos dhStdevAlways (quantDh C q s0 h) = exportDh C.toNumFmt true C.pos dhStdevAlways h := by
   cases hp : C.pos h.dist <;> simp [exportDh, quantDh, P.fmt_q, P.pos_q, hp]
 
-theorem exportPoint_quant (P : C.PrinterOn D q qd) (ys : Bool) (p : Point K) :
+theorem exportPoint_quant (P : C.PrinterOn D q qc qd) (ys : Bool) (p : Point K) :
     exportPoint C ys (quantPoint q p) = exportPoint C ys p := by
   obtain ⟨id, xy, z, s1, s2⟩ := p
   cases xy <;> cases z <;> simp [exportPoint, quantPoint, fixStr, adjStr, P.fmt_q, fmt_sgn_q P]
 
-theorem exportCPoint_quant (P : C.PrinterOn D q qd) (ys : Bool) (p : CPoint K) :
+theorem exportCPoint_quant (P : C.PrinterOn D q qc qd) (ys : Bool) (p : CPoint K) :
     exportCPoint C ys (quantCPoint q p) = exportCPoint C ys p := by
   obtain ⟨id, xy, z⟩ := p
   cases xy <;> cases z <;> simp [exportCPoint, quantCPoint, fmt_sgn_q P]
 
-theorem exportVec_quant (P : C.PrinterOn D q qd) (ys : Bool) (v : Vec K) : exportVec C ys (quantVec q v) = exportVec C ys v := by
+theorem exportVec_quant (P : C.PrinterOn D q qc qd) (ys : Bool) (v : Vec K) : exportVec C ys (quantVec q v) = exportVec C ys v := by
   simp only [exportVec, quantVec, fmt_sgn_q P]
   rfl
 
@@ -276,8 +299,8 @@ theorem map_angular_quant (gons : Bool) (obs : List (Obs K)) :
   simp only [Function.comp, quantObsU]
   split <;> rfl
 
-theorem exportCluster_quant (P : C.PrinterOn D q qd) (ys gons : Bool) (s0 : K) (c : Cluster K) (hD : c.AngIn D gons) :
-    exportCluster' C ys gons (quantCluster C q qd gons s0 c) = exportCluster' C ys gons c := by
+theorem exportCluster_quant (P : C.PrinterOn D q qc qd) (ys gons : Bool) (s0 : K) (c : Cluster K) (hD : c.AngIn D gons) :
+    exportCluster' C ys gons (quantCluster C q qc qd gons s0 c) = exportCluster' C ys gons c := by
   cases c with
   | obs sp cov =>
     have hobs : (sp.obs.map (quantObsU C q qd gons)).map (exportObsU C gons sp.station) = sp.obs.map (exportObsU C gons sp.station) :=
@@ -297,7 +320,7 @@ theorem exportCluster_quant (P : C.PrinterOn D q qd) (ys gons : Bool) (s0 : K) (
   | vectors vecs cov =>
     simp [exportCluster', quantCluster, map_map_eq _ _ (exportVec_quant P ys), exportCovCall_quant P, vecFlags_map]
 
-theorem exportParams_quant (P : C.PrinterOn D q qd) (p : Params K) : exportParams C (quantParams C q p) = exportParams C p := by
+theorem exportParams_quant (P : C.PrinterOn D q qc qd) (p : Params K) : exportParams C (quantParams C q p) = exportParams C p := by
   obtain ⟨sa, cp, ta, ap, g, alg, lat, ell, cb⟩ := p
   cases lat <;> simp only [exportParams, quantParams, Option.map, P.fmt_q, P.latOut_latIn, latitudeInGons, if_true] <;> rfl
 
@@ -311,8 +334,8 @@ theorem filter_active_quant (ps : List (Point K)) :
     cases p.active <;> simp
 
 /-- the document does not see the difference between a number and its printed-and-read value (gons and degrees) -/
-theorem exportNet_quant (P : C.PrinterOn D q qd) (n : Net K) (hD : n.AngIn D) :
-    exportNet C (quantNet C q qd n) = exportNet C n := by
+theorem exportNet_quant (P : C.PrinterOn D q qc qd) (n : Net K) (hD : n.AngIn D) :
+    exportNet C (quantNet C q qc qd n) = exportNet C n := by
   have hh : exportHead C { n.head with epoch := n.head.epoch.map q } = exportHead C n.head := by
     obtain ⟨ax, la, ep⟩ := n.head
     cases ep <;> simp [exportHead, P.fmt_q]
@@ -322,16 +345,16 @@ theorem exportNet_quant (P : C.PrinterOn D q qd) (n : Net K) (hD : n.AngIn D) :
       (n.points.filter Point.active).map (fun p => DItem.point (exportPoint C n.head.ys p)) :=
     map_map_eq (fun p => DItem.point (exportPoint C n.head.ys p)) (quantPoint q)
       (fun p => congrArg DItem.point (exportPoint_quant P n.head.ys p)) _
-  have hc : (n.clusters.map (quantCluster C q qd n.par.gons n.par.sigmaApr)).map (exportCluster' C n.head.ys n.par.gons) =
+  have hc : (n.clusters.map (quantCluster C q qc qd n.par.gons n.par.sigmaApr)).map (exportCluster' C n.head.ys n.par.gons) =
       n.clusters.map (exportCluster' C n.head.ys n.par.gons) :=
     map_map_eq_mem _ _ _ (fun c hc => exportCluster_quant P n.head.ys n.par.gons n.par.sigmaApr c (hD c hc))
   simp only [exportNet, quantNet, hh, hys, hg, exportParams_quant P, filter_active_quant, hp, hc]
 
 /-- reading the export gives the quantised network (without its unused points); `hD`: the angular values a file in
     degrees prints as sexagesimal text are in the domain of that printer -/
-theorem parse_export_net_printer (P : C.PrinterOn D q qd) (impl : Kind → K) (par0 : Params K) (n : Net K) (hD : n.AngIn D)
-    (hw : (quantNet C q qd n).WF C (fun x => q x = x) (fun x => D x ∧ qd x = x)) :
-    parseNet C impl par0 (exportNet C n) = .ok (canon (quantNet C q qd n)) := by
+theorem parse_export_net_printer (P : C.PrinterOn D q qc qd) (impl : Kind → K) (par0 : Params K) (n : Net K) (hD : n.AngIn D)
+    (hw : (quantNet C q qc qd n).WF C (fun x => q x = x) (fun x => D x ∧ qd x = x)) :
+    parseNet C impl par0 (exportNet C n) = .ok (canon (quantNet C q qc qd n)) := by
   rw [← exportNet_quant P n hD]
   exact parse_export_net C P.lawfulOn P.degLawfulOn impl par0 _ hw
 
